@@ -422,9 +422,99 @@ def _big_shard(t):
     return acc
 
 
+def _decode_shard(t):
+    """The other way into a block: decoding.  Bytes whose header declares fewer frames than a track's runs
+    cover (other software's bug, a damaged file) are refused or yield tracks of the block's own length - never a
+    block that holds a longer track - and a zero-frame block takes zero-frame tracks and nothing else."""
+    import struct
+
+    acc = core.Acc()
+    off = {R.T_DATA3D: 0, R.T_FORCE3D: 12, R.T_EMG: 12}[t]
+    bias = 49 if t == R.T_EMG else 0      # the EMG header stores the sample count minus 49
+    T = True
+    for n, declared, masks in ((10, 8, [tuple([T] * 10)]), (10, 8, [tuple([T] * 4 + [False] * 6), tuple([T] * 10)]),
+                               (6, 5, [tuple([False] * 5 + [T])]), (3, 1, [(T, T, T), (T, False, T)]), (4, 0, [(T, T, T, T)])):
+        sp = gen.rle_block(t, n, masks, chans=[5, 1])
+        data = bytearray(R.encode_block(sp))
+        struct.pack_into("<i", data, off, declared - bias)
+        acc.n["states"] += 1
+        acc.n["evaluations"] += 1
+        acc.n["nontrivial"] += 1
+        acc.n["transitions"] += 1
+        wit = {"decode": [t, n, declared, [list(m) for m in masks]]}
+        desc = f"{R.NAMES[t]} bytes declaring {declared} frames with runs over {n} frames ({len(masks)} track(s))"
+        try:
+            b = specs.lib_decode(t, sp["format"], bytes(data))[0]
+        except Exception:  # noqa: BLE001
+            acc.outcomes[f"decode:{R.NAMES[t]}:refused"] += 1
+            acc.n["traces"] += 1
+            continue
+        try:
+            own = int(getattr(b, "nFrames", getattr(b, "nSamples", -1)))
+            sizes = [int(getattr(x, "nFrames", getattr(x, "nSamples", -1))) for x in b]
+        except Exception as e:  # noqa: BLE001
+            acc.violation("wrong-length-track-inside", f"{PROP}:{R.NAMES[t]}:decode:unusable", wit, f"{desc}: decoded, then {type(e).__name__}: {e}")
+            continue
+        if any(z != own for z in sizes):
+            acc.violation("wrong-length-track-inside", f"{PROP}:{R.NAMES[t]}:decode:wrong-length-inside", wit,
+                          f"{desc}: decoded to a block of {own} frames holding tracks of {sizes} frames")
+        else:
+            acc.outcomes[f"decode:{R.NAMES[t]}:accepted-consistent"] += 1
+            acc.n["traces"] += 1
+    # zero frames: the degenerate length is a length like any other
+    m = TrackMachine(t, 0)
+
+    def tr(length, k):
+        if t == R.T_DATA3D:
+            spx = {"label": f"z{k}", "data": gen.filler((length, 3), k)}
+        elif t == R.T_FORCE3D:
+            spx = {"label": f"z{k}", "ap": gen.filler((length, 3), k), "force": gen.filler((length, 3), k + 7), "torque": gen.filler((length, 3), k + 13)}
+        else:
+            spx = {"label": f"z{k}", "data": gen.filler((length,), k)}
+        return specs.build_item(t, spx, m.base())
+
+    try:
+        b = m.block()
+        steps = [("add", 1, False), ("add", 0, True), ("add", 2, False), ("add", 0, True)]
+        for k, (what, length, valid) in enumerate(steps):
+            acc.n["states"] += 1
+            acc.n["evaluations"] += 1
+            acc.n["nontrivial"] += 1
+            acc.n["transitions"] += 1
+            before = [x.label for x in b]
+            wit = {"decode": [t, "zero", k]}
+            try:
+                x = tr(length, k)
+            except Exception:  # noqa: BLE001 - a zero-length track that cannot even be constructed: nothing to add
+                acc.outcomes[f"zero:{R.NAMES[t]}:track-not-constructible"] += 1
+                acc.n["traces"] += 1
+                continue
+            err = None
+            try:
+                m.add(b, x)
+            except Exception as e:  # noqa: BLE001
+                err = e
+            after = [y.label for y in b]
+            desc = f"{R.NAMES[t]} block of 0 frames, add of a {length}-frame track"
+            if not valid and (err is None or after != before):
+                acc.violation("wrong-element-accepted" if err is None else "refused-request-changed-block", f"{PROP}:{R.NAMES[t]}:zero:{'accepted' if err is None else 'changed'}", wit,
+                              f"{desc}: {'accepted' if err is None else 'refused'}; block {before} -> {after}")
+            elif valid and (err is not None or after != before + [x.label]):
+                acc.violation("valid-request-refused", f"{PROP}:{R.NAMES[t]}:zero:refused", wit, f"{desc}: {type(err).__name__ if err else 'no error'}; block {before} -> {after}")
+            else:
+                acc.outcomes[f"zero:{R.NAMES[t]}:{'installed' if valid else 'refused'}"] += 1
+                acc.n["traces"] += 1
+    except Exception as e:  # noqa: BLE001 - a zero-frame block that cannot be constructed at all
+        acc.outcomes[f"zero:{R.NAMES[t]}:block-not-constructible:{type(e).__name__}"] += 1
+    acc.sample({"decode": f"{R.NAMES[t]}: header frame count below what the runs cover; zero-frame block"}, 1)
+    return acc
+
+
 def _shard(shard):
     if shard[0] == "big":
         return _big_shard(shard[1])
+    if shard[0] == "decode":
+        return _decode_shard(shard[1])
     t, n = shard
     acc = core.Acc()
     m = TrackMachine(t, n)
@@ -435,10 +525,16 @@ def _shard(shard):
 def run(tier):
     _shard.tier = tier
     kinds = (R.T_DATA3D, R.T_FORCE3D, R.T_EMG)
-    return core.pmap(__name__, "_shard", [("big", t) for t in kinds] + [(t, n) for t in kinds for n in (1, 3)])
+    return core.pmap(__name__, "_shard", [("big", t) for t in kinds] + [("decode", t) for t in kinds] + [(t, n) for t in kinds for n in (1, 3)])
 
 
 def replay(w):
+    if w.get("decode"):
+        acc = _decode_shard(w["decode"][0])
+        for v in acc.violations:
+            if v["witness"] == w:
+                return core.Violation(v["clause"], v["sig"], w, v["detail"])
+        return None
     if w.get("big"):
         acc = _big_shard(w["type"])
         for v in acc.violations:
